@@ -49,6 +49,7 @@ class C16(core.Check):
                                        'included-file', 'predefined-data', 'width:4', 'width:8', 'width:12', 'width:16',
                                        'width:24', 'width:32', 'every-line-length-1..40', 'fmt:listing', 'fmt:hex', 'fmt:intel_hex', 'fmt:minhex']}
     required_buckets['every-line-length-1..40'] = 2
+    required_buckets['several-statements-per-line'] = 3
 
     def make_case(self, isa, files, main_name, argv_extra, res, line_ids, tags, origin=0):
         """line_ids: {id(line): (basename, lineno)} for model byte lines"""
@@ -61,7 +62,7 @@ class C16(core.Check):
             fl_ = line_ids.get(id(l))
             if fl_ is None:
                 continue
-            stm.append({'file': fl_[0], 'line': fl_[1], 'addr': l['addr'], 'bytes': l['bytes'], 'muted': bool(l.get('muted')),
+            stm.append({'file': fl_[0], 'line': fl_[1], 'idx': fl_[2] if len(fl_) > 2 else 0, 'addr': l['addr'], 'bytes': l['bytes'], 'muted': bool(l.get('muted')),
                         'text': l.get('text', '')})
             n = len(l['bytes']) // 2
             if n > 6:
@@ -97,9 +98,51 @@ class C16(core.Check):
             yield self.make_case(isa, {'p.asm': ''.join(l['text'] + '\n' for l in lines)}, 'p.asm', [], res, ids,
                                  {'width:16', 'every-line-length-1..40'})
 
+    def compound_cases(self, tier, seed):
+        """several statements on one source line (label in front of a statement, joined instructions): the listing must show
+        each statement exactly once, in address order, under the same line number"""
+        n = 12 if tier == 'quick' else 200
+        for i in range(n):
+            rng = core.rng_for(0 if i < 12 else seed, self.pid, 'compound', i)
+            isa = gen_prog.layout_isa(16, endian=rng.choice(['big', 'little']))
+            src_lines = ['.org ' + str(rng.choice([0, 16, 100]))]
+            model_lines = [{'k': 'org', 'addr': int(src_lines[0].split()[1]), 'zone_name': None}]
+            per_line = {}
+            for ln_no in range(2, rng.randrange(4, 12)):
+                parts = []
+                stm = []
+                if rng.random() < 0.5:
+                    nm = f'L{ln_no}'
+                    parts.append(nm + ':')
+                    model_lines.append({'k': 'label', 'name': nm})
+                for _ in range(rng.choice([1, 1, 2, 3])):
+                    mn = rng.choice(['nop', 'inr', 'nib', 'ldi', 'tri', 'jmp'])
+                    vals = {'nop': [], 'inr': [], 'nib': [rng.randrange(16)], 'ldi': [rng.randrange(256)], 'tri': [rng.randrange(4096)],
+                            'jmp': [rng.randrange(65536)]}[mn]
+                    l = {'k': 'instr', 'stmt': gen_prog.make_stmt(mn, vals, rng.choice(['ra', 'rb']))}
+                    model_lines.append(l)
+                    stm.append(l)
+                    parts.append(gen_prog.instr_text(l))
+                src_lines.append(rng.choice([' ', '  ', '\t']).join(parts))
+                per_line[ln_no] = stm
+            res = layout.layout(model_lines, 16, origin=0, size_of=lambda l, a: gen_prog.byte_line_size(isa, l))
+            layout.memory_map(res, lambda l: gen_prog.byte_line_bytes(isa, l, None, {'GLOBAL': (0, 65535)}))
+            ids = {}
+            for ln_no, stm in per_line.items():
+                for k, l in enumerate(stm):
+                    l['text'] = gen_prog.instr_text(l)
+                    ids[id(l)] = ('p.asm', ln_no, k)
+            c = self.make_case(isa, {'p.asm': '\n'.join(src_lines) + '\n'}, 'p.asm', [], res, ids,
+                               {'width:16', 'several-statements-per-line'})
+            # statements of one line: (file, line) -> ordered list
+            for s_ in c['meta']['stm']:
+                pass
+            yield c
+
     def cases(self, tier, seed):
         yield from self.corpus_cases(tier)
         yield from self.length_cases()
+        yield from self.compound_cases(tier, seed)
         n_pre = 90
         n = 90 if tier == 'quick' else 2500
         for i in range(n_pre + n):
@@ -291,19 +334,42 @@ class C16(core.Check):
                 by = {}
                 for r in rows:
                     by.setdefault((os.path.basename(r['file']), r['line']), []).append(r)
+                groups = {}
                 for s in m['stm']:
-                    rr = by.get((s['file'], s['line']), [])
+                    groups.setdefault((s['file'], s['line']), []).append(s)
+                for key, ss in groups.items():
+                    rr = [r for r in by.get(key, [])]
+                    if len(ss) > 1:
+                        # several statements on one source line: the byte-carrying rows of that line, in order
+                        rb = [r for r in rr if r['bytes']]
+                        if len(rb) != len(ss):
+                            bad = ('line-with-%d-statements-shown-as-%d-rows' % (len(ss), len(rb)), ss[0])
+                            break
+                        if any(r['addr'] != s['addr'] or bytes(r['bytes']).hex() != s['bytes'] for r, s in zip(rb, ss)):
+                            bad = ('statement-address-or-bytes/several-per-line', ss[0])
+                            break
+                        continue
+                    s = ss[0]
                     if s['muted']:
                         if any(r['bytes'] for r in rr):
                             bad = ('muted-statement-shown-with-bytes', s)
                             break
                         continue
-                    if len(rr) != 1:
-                        bad = ('statement-shown-%d-times' % len(rr), s)
-                        break
-                    if rr[0]['addr'] != s['addr'] or bytes(rr[0]['bytes']).hex() != s['bytes']:
-                        bad = ('statement-address-or-bytes', s)
-                        break
+                    if s['bytes']:
+                        rb = [r for r in rr if r['bytes']]       # a label in front of the statement has its own row
+                        if len(rb) != 1:
+                            bad = ('statement-shown-%d-times' % len(rb), s)
+                            break
+                        if rb[0]['addr'] != s['addr'] or bytes(rb[0]['bytes']).hex() != s['bytes']:
+                            bad = ('statement-address-or-bytes', s)
+                            break
+                    else:
+                        if not rr:
+                            bad = ('statement-shown-0-times', s)
+                            break
+                        if not any(r['addr'] == s['addr'] for r in rr):
+                            bad = ('statement-address-or-bytes', s)
+                            break
                 if bad:
                     vs.append(core.violated('listing/' + bad[0], {'statement': bad[1], 'text': text[:900], 'src': src}, buckets=t, nt=nt))
                     continue
